@@ -407,7 +407,7 @@ def run_partition(args):
     orc = Oracle(part, world, scn if start == START else f"{scn}@{start}")
     orc.start = start
     orc.root = list(root)
-    stats = kit.explore(world.build, alphabet(world), depth + len(root), max_dev + len(root), orc.on_transition, on_state=orc.on_state, roots=(tuple(root),),
+    stats = kit.explore(world.build, alphabet(world), depth + len(root), max_dev, orc.on_transition, on_state=orc.on_state, roots=(tuple(root),),
                         first=first)
     r = part.result()
     r["stats"] = stats
